@@ -147,6 +147,11 @@ func typeName(t types.Type) string {
 }
 
 func writeCanonType(b *strings.Builder, t types.Type, depth int) {
+	writeCanonTypeQ(b, t, depth, false)
+}
+
+// writeCanonTypeQ: full = package paths instead of package names (type tags)
+func writeCanonTypeQ(b *strings.Builder, t types.Type, depth int, canonFullPaths bool) {
 	if depth > 8 {
 		b.WriteString("...")
 		return
@@ -164,7 +169,11 @@ func writeCanonType(b *strings.Builder, t types.Type, depth int) {
 		}
 	case *types.Named:
 		if x.Obj().Pkg() != nil {
-			b.WriteString(x.Obj().Pkg().Name())
+			if canonFullPaths {
+				b.WriteString(x.Obj().Pkg().Path())
+			} else {
+				b.WriteString(x.Obj().Pkg().Name())
+			}
 			b.WriteByte('.')
 		}
 		b.WriteString(x.Obj().Name())
@@ -174,27 +183,27 @@ func writeCanonType(b *strings.Builder, t types.Type, depth int) {
 				if i > 0 {
 					b.WriteByte(',')
 				}
-				writeCanonType(b, ta.At(i), depth+1)
+				writeCanonTypeQ(b, ta.At(i), depth+1, canonFullPaths)
 			}
 			b.WriteByte(']')
 		}
 	case *types.Pointer:
 		b.WriteByte('*')
-		writeCanonType(b, x.Elem(), depth+1)
+		writeCanonTypeQ(b, x.Elem(), depth+1, canonFullPaths)
 	case *types.Slice:
 		b.WriteString("[]")
-		writeCanonType(b, x.Elem(), depth+1)
+		writeCanonTypeQ(b, x.Elem(), depth+1, canonFullPaths)
 	case *types.Array:
 		fmt.Fprintf(b, "[%d]", x.Len())
-		writeCanonType(b, x.Elem(), depth+1)
+		writeCanonTypeQ(b, x.Elem(), depth+1, canonFullPaths)
 	case *types.Map:
 		b.WriteString("map[")
-		writeCanonType(b, x.Key(), depth+1)
+		writeCanonTypeQ(b, x.Key(), depth+1, canonFullPaths)
 		b.WriteByte(']')
-		writeCanonType(b, x.Elem(), depth+1)
+		writeCanonTypeQ(b, x.Elem(), depth+1, canonFullPaths)
 	case *types.Chan:
 		b.WriteString("chan ")
-		writeCanonType(b, x.Elem(), depth+1)
+		writeCanonTypeQ(b, x.Elem(), depth+1, canonFullPaths)
 	case *types.Struct:
 		b.WriteString("struct{")
 		for i := 0; i < x.NumFields(); i++ {
@@ -203,7 +212,7 @@ func writeCanonType(b *strings.Builder, t types.Type, depth int) {
 			}
 			b.WriteString(x.Field(i).Name())
 			b.WriteByte(' ')
-			writeCanonType(b, x.Field(i).Type(), depth+1)
+			writeCanonTypeQ(b, x.Field(i).Type(), depth+1, canonFullPaths)
 		}
 		b.WriteByte('}')
 	default:
@@ -265,8 +274,13 @@ func NewMem(c *Ctx) *Mem {
 	return &Mem{c: c, heap0: map[string]Term{}, tids: map[string]int64{}, tidTyp: map[int64]types.Type{}, nonNil: map[string]bool{}, refKind: map[string]bool{}}
 }
 
+// typeID: dynamic type tags. Identical Go types must get identical tags, so aliases are resolved at every level
+// (app.BatchConfig = shutterevents.BatchConfig) and byte/uint8, rune/int32 are unified; package paths are kept
+// in full so that equally named types of different packages stay distinct.
 func (m *Mem) typeID(t types.Type) int64 {
-	k := types.TypeString(t, nil)
+	var kb strings.Builder
+	writeCanonTypeQ(&kb, t, 0, true)
+	k := kb.String()
 	if id, ok := m.tids[k]; ok {
 		return id
 	}
